@@ -8,7 +8,7 @@ use crate::core::*;
 use crate::nodes::*;
 use crate::prng::Rng;
 use crate::sc_stream::{gen_delivery, gen_items, SEv};
-use crate::sc_wstream::{gen_weights, make_wnode, Variant, WPlan, ShaKey, PLACEHOLDER};
+use crate::sc_wstream::{gen_weights, make_wnode, Variant, WNode, WPlan, ShaKey, PLACEHOLDER};
 use serde::{Deserialize, Serialize};
 
 #[derive(Serialize, Deserialize, Clone, Debug, PartialEq)]
@@ -20,22 +20,40 @@ pub enum ROp {
     Merge(Vec<u64>),
     /// an additional restart inside the pre-history
     Restart,
+    /// read every public view (signature, hash views, low sketch, overflow count, cardinality estimate);
+    /// in the compared part the restarted sketcher and its fresh twin must agree at each such read
+    Observe,
 }
+
+/// what one `Observe` saw
+pub type Seen = (Vec<View>, Option<(i64, u64, u64)>);
 
 #[derive(Serialize, Deserialize, Clone, Debug)]
 pub enum RestartPlan {
     /// unweighted sketchers: reinit()
     U { spec: USpec, pre: Vec<ROp>, post: Vec<ROp> },
     /// ProbMinHash2: reset(). Items are (id, weight bits)
-    P2 { elem: ElemT, hash: HashT, m: usize, pre: Vec<(u64, u64)>, post: Vec<(u64, u64)> },
+    /// `pre_mode` / `post_mode`: 0 item-wise, 1 one hash_wset batch, 2 a hash_wset batch then items, 3 item-wise with signature reads in between
+    P2 {
+        elem: ElemT,
+        hash: HashT,
+        m: usize,
+        pre: Vec<(u64, u64)>,
+        post: Vec<(u64, u64)>,
+        #[serde(default)]
+        pre_mode: u8,
+        #[serde(default)]
+        post_mode: u8,
+    },
     /// ProbOrdMinHash2: the next hash_set clears the state itself
     Ord { hash: HashT, m: u32, l: usize, pre: Vec<Vec<u64>>, post: Vec<u64> },
 }
 
 pub struct Restart;
 
-fn apply(node: &mut Box<dyn UNode>, ops: &[ROp], ctx: &mut Ctx, is_dens: bool, pre: bool) {
+fn apply(node: &mut Box<dyn UNode>, ops: &[ROp], ctx: &mut Ctx, is_dens: bool, pre: bool) -> Vec<Seen> {
     let mut streamed_since_restart = 0usize;
+    let mut seen: Vec<Seen> = vec![];
     for op in ops {
         match op {
             ROp::Item(i) => {
@@ -72,8 +90,47 @@ fn apply(node: &mut Box<dyn UNode>, ops: &[ROp], ctx: &mut Ctx, is_dens: bool, p
                 node.restart();
                 streamed_since_restart = 0;
             }
+            ROp::Observe => {
+                // the views of a densified sketcher exist only once it is finished
+                // (and nothing is read from a sketcher that has seen no item since it was created or restarted:
+                // what the estimators return on an empty sketch is not part of this property)
+                if streamed_since_restart == 0 || (is_dens && !node.dens_state().map(|s| s.nb_empty == 0).unwrap_or(false)) {
+                    continue;
+                }
+                ctx.ev(if pre { "pre-observe" } else { "observe" }, 0);
+                ctx.count(if pre { "fault:views-read-in-prehistory" } else { "probe:views-compared-mid-stream" });
+                let ex = node.set_extras().map(|(l, o, c)| (l, o, c.to_bits()));
+                seen.push((node.views(), ex));
+            }
         }
     }
+    seen
+}
+
+fn p2_apply(n: &mut Box<dyn WNode>, items: &[(u64, u64)], mode: u8, ctx: &mut Ctx, pre: bool) -> Vec<Vec<u64>> {
+    let pairs: Vec<(u64, f64)> = items.iter().map(|(i, w)| (*i, f64::from_bits(*w))).collect();
+    let mut seen = vec![];
+    let split = match mode {
+        1 => pairs.len(),
+        2 => pairs.len() / 2 + 1,
+        _ => 0,
+    }
+    .min(pairs.len());
+    if split > 0 {
+        ctx.ev(if pre { "pre-deliver-wset" } else { "deliver-wset" }, split as u64);
+        for (i, _) in &pairs[..split] {
+            ctx.sched.add(*i);
+        }
+        n.wset(&pairs[..split]);
+    }
+    for (k, (i, w)) in pairs[split..].iter().enumerate() {
+        ctx.ev(if pre { "pre-deliver" } else { "deliver" }, *i);
+        n.item(*i, *w);
+        if mode == 3 && k % 3 == 0 {
+            seen.push(n.sig());
+        }
+    }
+    seen
 }
 
 trait OrdNode {
@@ -137,7 +194,9 @@ impl Scenario for Restart {
             let pre = if rng.chance(0.1) { vec![] } else { mk(rng, npre, tiny_pre) };
             let post = mk(rng, npost, tiny_post);
             let post = if post.is_empty() { vec![(1, 1.0f64.to_bits())] } else { post };
-            return RestartPlan::P2 { elem, hash, m, pre, post };
+            let pre_mode = *rng.pick(&[0u8, 0, 1, 2, 3]);
+            let post_mode = *rng.pick(&[0u8, 0, 1, 2, 3]);
+            return RestartPlan::P2 { elem, hash, m, pre, post, pre_mode, post_mode };
         }
         if r == 2 || r == 3 {
             let hash = *rng.pick(&[HashT::Fnv, HashT::SimA, HashT::NoHash]);
@@ -187,6 +246,13 @@ impl Scenario for Restart {
                     })
                     .collect()
             };
+            if rng.chance(0.3) {
+                // public views read at arbitrary moments (for the densified sketchers they exist once finished)
+                for _ in 0..rng.urange(1, 3) {
+                    let k = if is_dens { ops.len() } else { rng.usize_below(ops.len() + 1) };
+                    ops.insert(k, ROp::Observe);
+                }
+            }
             if pre {
                 if spec.kind.is_set() && rng.chance(0.5) {
                     let k = rng.usize_below(ops.len() + 1);
@@ -239,10 +305,21 @@ impl Scenario for Restart {
                 ctx.ev("restart", 0);
                 ctx.count("fault:restart");
                 a.restart();
-                apply(&mut a, post, ctx, is_dens, false);
+                let seen_a = apply(&mut a, post, ctx, is_dens, false);
                 let mut b = make_unode(spec);
                 let mut quiet = Ctx::new("-");
-                apply(&mut b, post, &mut quiet, is_dens, false);
+                let seen_b = apply(&mut b, post, &mut quiet, is_dens, false);
+                let bad = (0..seen_a.len().max(seen_b.len())).find(|k| seen_a.get(*k) != seen_b.get(*k));
+                ctx.check("C13", "restarted-equals-fresh", bad.is_none(), || {
+                    format!(
+                        "{:?} m {}: read number {:?} of the public views in the middle of the stream after the restart differs from the fresh twin's ({} of {} reads happened)",
+                        spec.kind,
+                        spec.m,
+                        bad,
+                        seen_a.len(),
+                        seen_b.len()
+                    )
+                })?;
                 if is_dens {
                     // compare finished sketches only
                     let fa = a.dens_state().map(|s| s.nb_empty == 0).unwrap_or(true);
@@ -275,23 +352,25 @@ impl Scenario for Restart {
                 ctx.nontrivial = !pre.is_empty() && !post.is_empty();
                 Ok(())
             }
-            RestartPlan::P2 { elem, hash, m, pre, post } => {
+            RestartPlan::P2 { elem, hash, m, pre, post, pre_mode, post_mode } => {
                 let wp = p2plan(*elem, *hash, *m);
                 let mut a = make_wnode(&wp);
-                for (i, w) in pre {
-                    ctx.ev("pre-deliver", *i);
-                    a.item(*i, f64::from_bits(*w));
+                let _ = p2_apply(&mut a, pre, *pre_mode, ctx, true);
+                if *pre_mode == 1 || *pre_mode == 2 {
+                    ctx.count("fault:batch-entry-in-prehistory");
                 }
                 ctx.ev("restart", 0);
                 ctx.count("fault:restart");
                 let ok = a.reset();
                 assert!(ok);
                 let mut b = make_wnode(&wp);
-                for (i, w) in post {
-                    ctx.ev("deliver", *i);
-                    a.item(*i, f64::from_bits(*w));
-                    b.item(*i, f64::from_bits(*w));
-                }
+                let mid_a = p2_apply(&mut a, post, *post_mode, ctx, false);
+                let mut quiet = Ctx::new("-");
+                let mid_b = p2_apply(&mut b, post, *post_mode, &mut quiet, false);
+                let badmid = (0..mid_a.len().max(mid_b.len())).find(|k| mid_a.get(*k) != mid_b.get(*k));
+                ctx.check("C13", "restarted-equals-fresh", badmid.is_none(), || {
+                    format!("ProbMinHash2 m {}: signature read number {:?} in the middle of the stream after reset differs from the fresh twin's", m, badmid)
+                })?;
                 let (sa, sb) = (a.sig(), b.sig());
                 for x in &sa {
                     ctx.out.add(*x);
@@ -364,19 +443,26 @@ impl Scenario for Restart {
                     }
                 }
             }
-            RestartPlan::P2 { elem, hash, m, pre, post } => {
+            RestartPlan::P2 { elem, hash, m, pre, post, pre_mode, post_mode } => {
+                let mk = |m: usize, pre: Vec<(u64, u64)>, post: Vec<(u64, u64)>, a: u8, b: u8| RestartPlan::P2 { elem: *elem, hash: *hash, m, pre, post, pre_mode: a, post_mode: b };
                 for p in shrink_vec(pre) {
-                    out.push(RestartPlan::P2 { elem: *elem, hash: *hash, m: *m, pre: p, post: post.clone() });
+                    out.push(mk(*m, p, post.clone(), *pre_mode, *post_mode));
                 }
                 for p in shrink_vec(post) {
                     if !p.is_empty() {
-                        out.push(RestartPlan::P2 { elem: *elem, hash: *hash, m: *m, pre: pre.clone(), post: p });
+                        out.push(mk(*m, pre.clone(), p, *pre_mode, *post_mode));
                     }
                 }
                 for mm in [1usize, 2, m / 2] {
                     if mm >= 1 && mm < *m {
-                        out.push(RestartPlan::P2 { elem: *elem, hash: *hash, m: mm, pre: pre.clone(), post: post.clone() });
+                        out.push(mk(mm, pre.clone(), post.clone(), *pre_mode, *post_mode));
                     }
+                }
+                if *pre_mode != 0 {
+                    out.push(mk(*m, pre.clone(), post.clone(), 0, *post_mode));
+                }
+                if *post_mode != 0 {
+                    out.push(mk(*m, pre.clone(), post.clone(), *pre_mode, 0));
                 }
             }
             RestartPlan::Ord { hash, m, l, pre, post } => {
